@@ -17,7 +17,7 @@ CHECKS = {
               "distinct = distinct canonical case JSON (64-bit hash)."
               " Virtual time passes (0/1/20/2000 ms) at every quiescent point of the generated schedule, so that timers inside the code under test fire while handlers are parked."),
         jobs=[dict(test="TestC01", quick=1920, thorough=24000), dict(test="TestC01Net", quick=64, thorough=1000, shards=4), dict(test="TestC01Reuse", quick=200, thorough=2000, shards=4)],
-        floors={"TestC01:reordered=true": 0.15, "TestC01:topo=proxy": 0.1, "TestC01:topo=demux": 0.1, "TestC01:ser=true": 0.25, "TestC01:time_passes=true": 0.3},
+        floors={"TestC01:reordered=true": 0.15, "TestC01:topo=proxy": 0.1, "TestC01:topo=demux": 0.1, "TestC01:ser=true": 0.25, "TestC01:time_passes=true": 0.3, "TestC01:stats=true": 0.1},
         assumptions=COMMON_ASSUMPTIONS,
     ),
     "C02": dict(
@@ -49,8 +49,9 @@ CHECKS = {
         rule=("rapid-generated RPCs of all four kinds with request metadata (0..6 keys from the gRPC alphabet in random letter case, 1..4 values, keys reused across sets; text values printable ASCII; -bin values empty/NUL/0xFF/random up to 1KiB), "
               "handlers calling SetHeader 0..3 times, optional SendHeader, headers leaving with first message or with the status, late SetHeader, SetTrailer 0..3 times, grpc.SetHeader/SendHeader/SetTrailer in unary handlers, trailers with error returns. "
               "Oracle model.MD (independent join/lower-case/base64 implementation): handler's incoming metadata, Header(), Trailer(), unary InHeader (recording stats handler) and the tap (decoded by the model) all equal the model; response metadata only on the first response envelope. "
-              "Non-trivial = a -bin value with NUL or non-UTF-8 bytes, or a key with >=2 values, or >=2 set calls; distinct = canonical case hash."),
-        jobs=[dict(test="TestC04", quick=4800, thorough=50000), dict(test="TestC04Foreign", quick=800, thorough=10000, shards=4), dict(test="FuzzC04", kind="fuzz", quick=0, thorough=90), dict(test="TestC04Conc", quick=300, thorough=3000, shards=4)],
+              "Non-trivial = a -bin value with NUL or non-UTF-8 bytes, or a key with >=2 values, or >=2 set calls; distinct = canonical case hash."
+              " reuse: one header MD, one trailer MD and one outgoing-context MD object are kept by the application and passed again in each of 2..5 calls (together with per-call sets); each call must observe exactly its own sets and the application's objects must be left unchanged."),
+        jobs=[dict(test="TestC04", quick=4800, thorough=50000), dict(test="TestC04Foreign", quick=800, thorough=10000, shards=4), dict(test="FuzzC04", kind="fuzz", quick=0, thorough=90), dict(test="TestC04Conc", quick=300, thorough=3000, shards=4), dict(test="TestC04Reuse", quick=800, thorough=8000)],
         floors={"TestC04:md-nontrivial": 0.3, "TestC04:hdr-via=sendheader": 0.03, "TestC04:hdr-via=first-message": 0.05, "TestC04:hdr-via=with-trailer": 0.05, "TestC04:unary": 0.1},
         assumptions=COMMON_ASSUMPTIONS,
     ),
@@ -60,8 +61,9 @@ CHECKS = {
               "per (connection, id, direction) projection: unary = one header+body request and one header+trailer+(body|non-OK status) response; stream c->s = OPEN BODY* TRAILER? RESET? with nothing after the reset; "
               "s->c = HEADER? BODY* TRAILER(status) then only resets answering a late body, trailer present iff the handler returned on a live un-reset stream, no reset before that trailer; constant method/source/destination, swapped in responses; "
               "response metadata only on the first response envelope; server emits only ids it has read. Non-trivial = a projection with >=4 envelopes or a reset, or an early handler return; distinct = canonical case hash."
-              " unary-cancel: 1..6 unary calls whose caller cancels or times out while the handler runs or while the reply's transport write is pending; the history must still show exactly one request envelope and at most one response per id, and each handler runs once."),
-        jobs=[dict(test="TestC06", quick=4800, thorough=60000), dict(test="TestC06Race", quick=300, thorough=3000, shards=4), dict(test="TestC06Cancel", quick=240, thorough=3000), dict(test="TestC06Unary", quick=800, thorough=8000)],
+              " unary-cancel: 1..6 unary calls whose caller cancels or times out while the handler runs or while the reply's transport write is pending; the history must still show exactly one request envelope and at most one response per id, and each handler runs once."
+              " ended-at-open: 1..6 calls (all kinds) whose context is already cancelled or expired when they start, or ends while their first envelope is parked in the transport; whatever reaches the wire must be nothing or a proper opening (a reset as the first envelope of an id is rejected)."),
+        jobs=[dict(test="TestC06", quick=4800, thorough=60000), dict(test="TestC06Race", quick=300, thorough=3000, shards=4), dict(test="TestC06Cancel", quick=240, thorough=3000), dict(test="TestC06Unary", quick=800, thorough=8000), dict(test="TestC06Open", quick=800, thorough=8000)],
         floors={"TestC06:family=c01": 0.1, "TestC06:family=c02": 0.2, "TestC06:family=c03": 0.1, "TestC06:family=c04": 0.1, "TestC06:early_return=true": 0.1},
         assumptions=COMMON_ASSUMPTIONS,
     ),
@@ -89,7 +91,7 @@ CHECKS = {
               "Non-trivial = trace length >=2, or >=1 unread response, or deadline; distinct = distinct scenario; counters.positions = number of (scenario, position) executions."
               " In a quarter of the cases the caller's context carries a custom cancellation cause (WithCancelCause / WithTimeoutCause); the statuses demanded are those of ctx.Err()."),
         jobs=[dict(test="TestC07", quick=1280, thorough=6000), dict(test="FuzzC07", kind="fuzz", quick=0, thorough=90)],
-        floors={"TestC07:unread>=3": 0.08, "TestC07:deadline=true": 0.3, "TestC07:kind=bidi": 0.2, "TestC07:kind=server": 0.2, "TestC07:kind=client": 0.2, "TestC07:park_send=true": 0.05, "TestC07:cause=true": 0.1},
+        floors={"TestC07:unread>=3": 0.08, "TestC07:deadline=true": 0.3, "TestC07:kind=bidi": 0.2, "TestC07:kind=server": 0.2, "TestC07:kind=client": 0.2, "TestC07:park_send=true": 0.05, "TestC07:cause=true": 0.1, "TestC07:stats=true": 0.15},
         assumptions=COMMON_ASSUMPTIONS + ["handlers that ignore >=2 queued requests and then wait are documented head-of-line blocking and generated under C11, not here"],
     ),
     "C11": dict(
@@ -97,9 +99,10 @@ CHECKS = {
         rule=("(a) exhaustive grid: handler returns (nil/error) after k of n caller messages for all 0<=k<n<=8 x {client,bidi}, released only once the n-k unread bodies have settled in the server; caller cancels with m responses unread for all 0<=m<=8 x {server,bidi}; "
               "(b) rapid cases over the same two modes plus scripted peers that send more than expected: a scripted caller sending 1..6 bodies/trailers after its half-close to a handler that lingers or has returned, and a scripted server sending 1..6 bodies/trailers/resets/replies after the trailer (or after the unary reply); 0..4 bystander RPCs (unary and ping-pong streams) in flight, one probe unary call with a 1h virtual deadline started afterwards. "
               "Oracle: probe returns its exact reply (DeadlineExceeded means everything was stuck), bystanders complete exactly, the abandoned call terminates (with the handler's status for early returns), no definitive deadlock (watchdog). "
-              "Non-trivial = >=2 unread bodies, >=3 unread responses, surplus envelopes, or >=1 bystander; distinct = distinct case."),
+              "Non-trivial = >=2 unread bodies, >=3 unread responses, surplus envelopes, or >=1 bystander; distinct = distinct case."
+              " In caller-cancel mode on bidi streams the abandonment may instead be a SendMsg that fails to encode its message, after which the caller walks away without cancelling."),
         jobs=[dict(test="TestC11Grid", kind="enum", quick=1, thorough=1, shards=1), dict(test="TestC11", quick=3200, thorough=20000), dict(test="FuzzC11", kind="fuzz", quick=0, thorough=90)],
-        floors={"TestC11:mode=handler-early": 0.15, "TestC11:mode=caller-cancel": 0.15, "TestC11:mode=client-extra": 0.12, "TestC11:mode=server-extra": 0.12},
+        floors={"TestC11:mode=handler-early": 0.15, "TestC11:mode=caller-cancel": 0.15, "TestC11:mode=client-extra": 0.12, "TestC11:mode=server-extra": 0.12, "TestC11:send_fail=true": 0.012},
         assumptions=COMMON_ASSUMPTIONS + ["a caller that stops reading without cancelling is documented head-of-line blocking (the quantifier lists cancellation) and is not generated"],
     ),
     "C09": dict(
@@ -111,7 +114,7 @@ CHECKS = {
               "Non-trivial = trace length >=2, or window armed, or write side still writable; counters.positions = (scenario, position) executions."
               " The failing transport's error value is drawn from kit.FaultErrKinds (a private error, io.EOF, an error wrapping io.EOF, io.ErrUnexpectedEOF, io.ErrClosedPipe, net.ErrClosed, context.Canceled, os.ErrDeadlineExceeded): goat uses io.EOF as its own clean-end signal, so a transport reporting the peer's close that way must not read as success."),
         jobs=[dict(test="TestC09", quick=960, thorough=6000), dict(test="TestC09Storm", quick=1600, thorough=40000), dict(test="FuzzC09", kind="fuzz", quick=0, thorough=90)],
-        floors={"TestC09:window=unary": 0.1, "TestC09:window=stream": 0.1, "TestC09:write_fails=false": 0.3, "TestC09:read_error=eof": 0.04, "TestC09:read_error=wrapped-eof": 0.04},
+        floors={"TestC09:window=unary": 0.1, "TestC09:window=stream": 0.1, "TestC09:write_fails=false": 0.3, "TestC09:read_error=eof": 0.04, "TestC09:read_error=wrapped-eof": 0.04, "TestC09:stats=true": 0.15},
         assumptions=COMMON_ASSUMPTIONS + ["the check-then-register window is reached through the verif-tagged yield points mux.unary.beforeRegister / mux.stream.beforeRegister"],
     ),
     "C10": dict(
@@ -119,7 +122,8 @@ CHECKS = {
         rule=("rapid-generated scenarios: 0..8 unary and 0..8 streaming handlers driven by a scripted caller, each parked in a gate that ignores its context / on its context / in receive / in send (its transport write held) / echoing / already answered; "
               "the connection ends by a read failure after p delivered request envelopes, by a failure of the j-th response write, or by Server.Stop() after p deliveries (p, j drawn over the whole trace). "
               "Oracle at the quiescent point after the ending: Serve has returned - but not while a context-ignoring streaming handler is still running; every streaming handler has finished; the context of every in-flight handler, unary included, is done; "
-              "after the context-ignoring unary handlers have been released and returned, the synctest bubble ends with no goroutine left. Non-trivial = >=1 unary and >=1 stream in flight, or a handler parked in send."),
+              "after the context-ignoring unary handlers have been released and returned, the synctest bubble ends with no goroutine left. Non-trivial = >=1 unary and >=1 stream in flight, or a handler parked in send."
+              " Stream kind sdl carries a 30 ms grpc-timeout and 50 ms of virtual time may pass before the ending, so that handlers that returned DeadlineExceeded have their trailers in flight when the connection ends."),
         jobs=[dict(test="TestC10", quick=4800, thorough=30000), dict(test="FuzzC10", kind="fuzz", quick=0, thorough=90)],
         floors={"TestC10:ending=readfail": 0.2, "TestC10:ending=writefail": 0.2, "TestC10:ending=stop": 0.15, "TestC10:parked-in-send": 0.1, "TestC10:orphan=true": 0.2},
         assumptions=COMMON_ASSUMPTIONS + ["cancelling the context passed to Serve is not among the endings the property lists and is not generated"],
@@ -140,7 +144,8 @@ CHECKS = {
               "alphabet of 20 response shapes (reply, reply with explicit OK status, status, status+body, no header, header with undecodable -bin metadata, header only, body, garbage body, OK/error trailers, trailer with undecodable metadata, reset, reset+status, empty, request-shaped, body+trailer, trailer without status, headerless body, status without trailer) x targets {A, B, unknown id} = 60 symbols. "
               "(a) bounded-exhaustive: every sequence of length<=2 (3660) each under one of 128 rotating configurations plus a 1/30 sample of length 3 (quick); length<=3 (219660) plus a 1/40 sample of length 4 (thorough); (b) rapid sequences of length 1..30. After the sequence the connection is closed. "
               "Oracle: no crash; every API call (Invoke, Header, RecvMsg loop, Trailer) has returned after the close; a unary success carries a body some envelope addressed to that call carried; successful receives are an in-order subsequence of the bodies addressed to the stream; io.EOF only after a trailer with OK/absent status addressed to the stream and no earlier reset. "
-              "Non-trivial = at least one envelope addressed to an outstanding call."),
+              "Non-trivial = at least one envelope addressed to an outstanding call."
+              " In half of the random cases the 'id nobody uses' is the id of a third call whose opening write was parked in the transport when its context ended."),
         jobs=[dict(test="TestC13Enum", kind="enum", quick=1, thorough=1), dict(test="TestC13", quick=3200, thorough=40000), dict(test="FuzzC13", kind="fuzz", quick=0, thorough=150)],
         assumptions=COMMON_ASSUMPTIONS,
     ),
@@ -151,7 +156,8 @@ CHECKS = {
               "(b) rapid: 2..8 calls with 1..6 envelopes each in a drawn interleaving; (c) id allocation: bursts of 2..64 callers (unary and streams) released from one gate in the same step, 1..4 bursts per connection; (d) one history of 10^4 (quick) / 10^5 (thorough) unary calls on one connection. "
               "Oracle: every call/handler observes exactly its own envelope contents in its own order and nothing else (tokens, request metadata, trailer metadata, echoes per id); the opening ids on the wire are pairwise distinct and as many as calls. "
               "Non-trivial = an interleaving with >=1 switch between calls, or a burst of >=8 concurrent starts; distinct = distinct (side, shape, interleaving)."
-              " Payloads are 4-byte tokens or padded to 1100..20000 bytes with a per-call fill. ids: bursts optionally leave the id-allocation point through the spin barrier, and optionally keep all eight unary workers busy for 20 ms of virtual time while the rest of the burst arrives."),
+              " Payloads are 4-byte tokens or padded to 1100..20000 bytes with a per-call fill. ids: bursts optionally leave the id-allocation point through the spin barrier, and optionally keep all eight unary workers busy for 20 ms of virtual time while the rest of the burst arrives."
+              " Bursts are spread over 1..3 connections of one Server object."),
         jobs=[dict(test="TestC05Enum", kind="enum", quick=1, thorough=1), dict(test="TestC05", quick=3200, thorough=20000), dict(test="TestC05IDs", quick=1280, thorough=8000),
               dict(test="TestC05History", kind="enum", quick=1, thorough=1, shards=1), dict(test="TestC05Reuse", quick=200, thorough=2000, shards=4)],
         floors={"TestC05:side=client": 0.25, "TestC05:side=server": 0.25, "TestC05:pooled_payloads=true": 0.3, "TestC05IDs:slow_handlers=true": 0.3, "TestC05IDs:spin_barrier=true": 0.4},
@@ -163,9 +169,10 @@ CHECKS = {
               "(ok, handler error, caller cancel, virtual-clock deadline, server reset of a stream whose handler returned while the caller keeps sending, open whose transport write fails), 0..3 messages each; after every round the bubble is settled (quiescent point). "
               "Invariant at every quiescent point: goat.VerifClientCalls(cc)==0, goat.VerifServerStreams()==0 (verif-tagged registry accessors) and the multiset of creation sites of the bubble's live goroutines equals the idle set recorded right after connection start. "
               "Non-trivial = history with >=3 different outcomes and a round of >=8 RPCs; counters.rpcs = RPCs executed."
-              " Outcome cancel-send: the cancellation lands while one SendMsg of the call is parked inside the transport write. Fault error values drawn from kit.FaultErrKinds."),
+              " Outcome cancel-send: the cancellation lands while one SendMsg of the call is parked inside the transport write. Fault error values drawn from kit.FaultErrKinds."
+              " Outcomes pre-cancelled / pre-expired / nearly-expired: calls started on a context that has ended or is about to."),
         jobs=[dict(test="TestC14", quick=1600, thorough=48000), dict(test="FuzzC14", kind="fuzz", quick=0, thorough=90)],
-        floors={"TestC14:outcome=openfail": 0.3, "TestC14:outcome=cancel": 0.3, "TestC14:outcome=cancel-unread": 0.15, "TestC14:outcome=deadline": 0.3, "TestC14:outcome=reset": 0.3, "TestC14:outcome=cancel-send": 0.1},
+        floors={"TestC14:outcome=openfail": 0.3, "TestC14:outcome=cancel": 0.3, "TestC14:outcome=cancel-unread": 0.15, "TestC14:outcome=deadline": 0.3, "TestC14:outcome=reset": 0.3, "TestC14:outcome=cancel-send": 0.1, "TestC14:outcome=pre-expired": 0.1, "TestC14:outcome=nearly-expired": 0.05},
         assumptions=COMMON_ASSUMPTIONS + ["registry sizes are read through the verif-tagged accessors VerifClientCalls / VerifServerStreams"],
     ),
     "C20": dict(
@@ -200,9 +207,10 @@ CHECKS = {
               "bad peer (a destination whose writes never complete with 20 envelopes queued for it, a failing reader, a failing writer, a dial error, a dial still in progress), re-attachment of c1 under its name before or after the old connection fails on read or write, and cancellation of the proxy's context after 0..8 steps. "
               "Oracle: no crash; spoofed/headerless envelopes reach nobody; every honest envelope arrives exactly once at the next quiescent point whatever the bad peer does; a failed connection is reported to the disconnect callback and an envelope to its name then triggers a fresh dial; "
               "after re-attachment traffic reaches the new connection; after cancellation nothing is forwarded, Serve returns and the synctest bubble ends with no goroutine left. Non-trivial = every case (all involve a fault, a spoof or a cancellation)."
-              " The bad peer's transport optionally ignores the context passed to Read (as a net.Conn without deadlines does); fault error values are drawn from kit.FaultErrKinds; mode attach-race: a peer attaches at the very moment the first envelope for its undiallable name arrives."),
+              " The bad peer's transport optionally ignores the context passed to Read (as a net.Conn without deadlines does); fault error values are drawn from kit.FaultErrKinds; mode attach-race: a peer attaches at the very moment the first envelope for its undiallable name arrives."
+              " Spoofed envelopes optionally carry sender-chosen route fields (a route record ending in the sender's own name, the victim's name, the proxy's name; a return route)."),
         jobs=[dict(test="TestC17", quick=3200, thorough=30000), dict(test="FuzzC17", kind="fuzz", quick=0, thorough=90)],
-        floors={"TestC17:mode=cancel": 0.1, "TestC17:mode=reattach/old_first=false/read": 0.02, "TestC17:mode=spoof/other-source": 0.025, "TestC17:mode=badpeer/slow-failing-dial": 0.012, "TestC17:badpeer.deaf_read=true": 0.05, "TestC17:mode=attach-race": 0.1},
+        floors={"TestC17:mode=cancel": 0.1, "TestC17:mode=reattach/old_first=false/read": 0.02, "TestC17:mode=spoof/other-source": 0.025, "TestC17:mode=badpeer/slow-failing-dial": 0.012, "TestC17:badpeer.deaf_read=true": 0.05, "TestC17:mode=attach-race": 0.1, "TestC17:spoof.route_fields=true": 0.05},
         assumptions=COMMON_ASSUMPTIONS,
     ),
     "C18": dict(
@@ -223,10 +231,11 @@ CHECKS = {
               "raw: WebSocket text frames, random bytes and mutated/truncated valid encodings as binary frames or HTTP bodies, HTTP requests without body / header / source; oracle: delivered iff the reference proto.Unmarshal accepts (and, for HTTP, header and source are present) and then equal, otherwise an error / HTTP 400 and nothing delivered. "
               "ctx: a parked Read or Write on each transport returns with an error once its context is cancelled or its deadline passes (virtual clock for channel and HTTP read; real time with 3s grace for sockets). "
               "idle: ServeHTTP driven directly with a recorder and a fake clockwork clock: 0..3 deliveries parked without a reader or a reader parked, the cleaner tick placed so that the connection's age is timeout-2s..timeout+2s, 1..3 ticks; oracle: no panic in ServeHTTP, readers of an expired connection fail. "
-              "Non-trivial = >=2 envelopes or a body >32KiB (roundtrip); every raw/ctx/idle case."),
+              "Non-trivial = >=2 envelopes or a body >32KiB (roundtrip); every raw/ctx/idle case."
+              " concurrent-writers: 2..8 goroutines write 1..3 envelopes each on one connection of each transport at the same time (goat's own callers do); every envelope is read exactly once, unchanged, and each writer's envelopes stay in that writer's order."),
         jobs=[dict(test="TestC19RoundTrip", quick=480, thorough=8000), dict(test="TestC19Raw", quick=800, thorough=20000), dict(test="TestC19Ctx", quick=48, thorough=400, shards=8),
-              dict(test="TestC19Idle", quick=400, thorough=6000, shards=8), dict(test="FuzzC19Decode", kind="fuzz", quick=0, thorough=120)],
-        floors={"TestC19RoundTrip:rt.websocket": 0.25, "TestC19RoundTrip:rt.http": 0.2, "TestC19RoundTrip:rt.channel": 0.1},
+              dict(test="TestC19Idle", quick=400, thorough=6000, shards=8), dict(test="TestC19Conc", quick=320, thorough=4000), dict(test="FuzzC19Decode", kind="fuzz", quick=0, thorough=120)],
+        floors={"TestC19RoundTrip:rt.websocket": 0.25, "TestC19RoundTrip:rt.http": 0.2, "TestC19RoundTrip:rt.channel": 0.1, "TestC19Conc:conc.http": 0.25},
         assumptions=COMMON_ASSUMPTIONS + ["WebSocket and HTTP sub-checks use real loopback sockets and wall-clock budgets; exceeding a budget is reported as inconclusive (exit 2), never as a violation"],
         timeout_quick=600,
     ),
